@@ -1806,6 +1806,12 @@ func getIndexBinMethod(n *node) {
 	value := genValue(n.child[0])
 	next := getExec(n.tnext)
 
+	if n.anc == nil || n.anc.kind != callExpr || n.anc.child[0] != n {
+		// A method value which is not called right away binds a copy of its receiver.
+		recv := value
+		value = func(f *frame) reflect.Value { return detachedCopy(recv(f)) }
+	}
+
 	n.exec = func(f *frame) bltn {
 		// Can not use .Set() because dest type contains the receiver and source not
 		// dest(f).Set(value(f).Method(m))
